@@ -1716,18 +1716,46 @@ def returns_to_the_indifferent_decision_requeue_both(prog, rep, R):
     b = prog.body(OLF + "InternalOptimisingLineFormatter::find_optimal_solution")
     if not rep.check(b is not None, R, "anchor:find_optimal_solution", "find_optimal_solution not found"):
         return
-    sites = []
+    GEN = OLF + "InternalOptimisingLineFormatter::get_potential_solution"
+
+    def generator_calls(x):
+        """[(call, decision, text of the node argument)] — the closure `get_solutions((D, node, stack))` or get_potential_solution(.., node, .., D, ..)"""
+        out = []
+        for c in x.calls():
+            cal = c.callee or ""
+            if "ops::function::Fn" in cal and cal.split("::")[-1] in ("call", "call_mut", "call_once") and len(c.args) >= 2:
+                m = re.match(r"^tuple\{RawDecision::(Break|Continue)\{\},(.*)\}$", canon(x, c.args[1]))
+                if m:
+                    out.append((c, m.group(1), m.group(2)))
+            elif norm(c.t.get("resolved") or cal) == GEN:
+                texts = [canon(x, a2) for a2 in c.args]
+                d = [re.match(r"^RawDecision::(Break|Continue)\{\}$", t) for t in texts]
+                d = [m.group(1) for m in d if m]
+                if len(d) == 1 and len(texts) >= 2:
+                    out.append((c, d[0], texts[1]))
+        return out
+    sites = [(c, d) for c, d, node in generator_calls(b) if "indifference_line@Some.0" in node]
+    # a helper that is handed the remembered decision: it has to generate both successors of its node parameter
+    helper_sites, lonely = 0, []
     for c in b.calls():
-        cal = c.callee or ""
-        if not ("ops::function::Fn" in cal and cal.split("::")[-1] in ("call", "call_mut", "call_once")) or len(c.args) < 2:
+        hb = prog.body(norm(c.t.get("resolved") or c.callee or ""))
+        if hb is None or not hb.npath.startswith(OLF) or hb.npath in (b.npath, GEN) or hb.kind == "Closure":
             continue
-        t = canon(b, c.args[1])
-        m = re.match(r"^tuple\{RawDecision::(Break|Continue)\{\},(.*)\}$", t)
-        if m and "indifference_line@Some.0" in m.group(2):
-            sites.append((c, m.group(1)))
-    if not rep.check(len(sites) >= 2, R, "anchor:returns-to-the-indifferent-decision", "find_optimal_solution no longer re-queues the successors of the remembered indifferent decision (%d calls)" % len(sites)):
+        idx = [i for i, a2 in enumerate(c.args) if "indifference_line@Some.0" in canon(b, a2)]
+        if not idx:
+            continue
+        per_param = {}
+        for c2, d2, node2 in generator_calls(hb):
+            for i in idx:
+                if re.search(r"\barg%d\b" % (i + 1), node2):
+                    per_param.setdefault(i, set()).add(d2)
+        gens = set().union(*per_param.values()) if per_param else set()
+        if gens == {"Break", "Continue"}:
+            helper_sites += 1
+        elif gens:
+            lonely.append("%s only, in %s called @%s" % (sorted(gens)[0], short(hb.npath), c.where()))
+    if not rep.check(len(sites) + 2 * helper_sites >= 2, R, "anchor:returns-to-the-indifferent-decision", "find_optimal_solution no longer re-queues the successors of the remembered indifferent decision (%d calls)" % len(sites)):
         return
-    lonely = []
     for c, d in sites:
         other = "Continue" if d == "Break" else "Break"
         if not any(d2 == other and (b.dominates(c.bb, c2.bb) or b.dominates(c2.bb, c.bb)) for c2, d2 in sites):
@@ -1735,7 +1763,7 @@ def returns_to_the_indifferent_decision_requeue_both(prog, rep, R):
     rep.check(not lonely, R, "both-successors-at-every-return",
               "a back-tracking site of the search re-queues only one successor of the remembered indifferent decision (%s) while its siblings re-queue both: the layouts that keep the earlier "
               "groups together are then found only when another site (line too long) fires first, which depends on wrap_column" % lonely[:2],
-              where=lonely and lonely[0].split("@")[-1] or None, instance={"return_calls": len(sites), "unpaired": lonely[:3]})
+              where=lonely and lonely[0].split("@")[-1] or None, instance={"return_calls": len(sites), "returns_through_a_helper": helper_sites, "unpaired": lonely[:3]})
 
 
 def check_c08(prog, rep, tier, cfg):
